@@ -136,6 +136,9 @@ def run(ctx):
     yl = [n for n in g.stmt_nodes() if any(isinstance(x, ast.Yield) for x in n.walk())]
     cm = [n for n in g.stmt_nodes() for c in n.calls() if norm(c.func) == "session.commit"]
     cl = [n for n in g.stmt_nodes() for c in n.calls() if norm(c.func) == "session.close"]
+    # `with closing(session):` closes at every exit of the block (the CFG has one with_exit node per continuation)
+    cl += [n for n in g.nodes if n.kind == "with_exit" and getattr(n, "extra", None) is not None
+           and norm(n.extra.context_expr) in ("closing(session)", "contextlib.closing(session)")]
     rb = [n for n in g.stmt_nodes() for c in n.calls() if norm(c.func) == "session.rollback"]
     ctx.require(len(yl) == 1, "R05.4: _create_scoped_session must have exactly one yield")
     y = yl[0]
@@ -183,7 +186,10 @@ def run(ctx):
     s0 = [n for n in g.stmt_nodes() if n.kind == "stmt" and isinstance(n.ast, ast.Assign) and norm(n.ast.targets[0]) == "session"]
     ctx.require(s0, "R05.4: session creation statement not found")
     starts = [m for k, m in s0[0].succ if k == "n"]
-    reach = g.reachable(starts, avoid_nodes=cl)
+    # constructing the closing() wrapper itself cannot fail (it stores its argument)
+    _wrap_ok = lambda a, k, b: not (a.kind == "with_enter" and k == "e" and getattr(a, "extra", None) is not None  # noqa: E731
+                                    and norm(a.extra.context_expr) in ("closing(session)", "contextlib.closing(session)"))
+    reach = g.reachable(starts, avoid_nodes=cl, edge_ok=_wrap_ok)
     ok = bool(cl) and g.exit not in reach and g.raise_exit not in reach
     ctx.check(ok, "R05.4", f.short, "close-on-all-exits",
               message="the session can be left open on some exit", how="session.close() on every path to any exit",
